@@ -1,0 +1,71 @@
+//go:build verif
+
+package v2
+
+// Add-only accessors for the /verif correspondence harness (build tag `verif`), property C13:
+// drive the real processor state machine (pcState.handle) with its real context
+// (VerifyCommitLight on the context's state, real block store, real block executor).
+
+import (
+	"fmt"
+
+	"github.com/tendermint/tendermint/p2p"
+	sm "github.com/tendermint/tendermint/state"
+	"github.com/tendermint/tendermint/store"
+	"github.com/tendermint/tendermint/types"
+)
+
+// VerifProcessor wraps a pcState over a real pContext.
+type VerifProcessor struct {
+	pc  *pcState
+	ctx *pContext
+}
+
+func NewVerifProcessor(bs *store.BlockStore, ex *sm.BlockExecutor, state sm.State) *VerifProcessor {
+	ctx := newProcessorContext(bs, ex, state)
+	return &VerifProcessor{pc: newPcState(ctx), ctx: ctx}
+}
+
+func (v *VerifProcessor) handle(ev Event) (out string) {
+	defer func() {
+		if r := recover(); r != nil {
+			out = "panic: " + fmt.Sprint(r)
+		}
+	}()
+	res, err := v.pc.handle(ev)
+	if err != nil {
+		return "error: " + err.Error()
+	}
+	switch e := res.(type) {
+	case noOpEvent:
+		return "noop"
+	case pcFinished:
+		return fmt.Sprintf("finished synced=%d", e.blocksSynced)
+	case pcBlockVerificationFailure:
+		return fmt.Sprintf("failure h=%d p1=%s p2=%s", e.height, e.firstPeerID, e.secondPeerID)
+	case pcBlockProcessed:
+		return fmt.Sprintf("processed h=%d p=%s", e.height, e.peerID)
+	}
+	return fmt.Sprintf("other: %v", res)
+}
+
+// BlockReceived is scBlockReceived (block may be nil).
+func (v *VerifProcessor) BlockReceived(peer p2p.ID, b *types.Block) string {
+	return v.handle(scBlockReceived{peerID: peer, block: b})
+}
+
+// PeerError is scPeerError.
+func (v *VerifProcessor) PeerError(peer p2p.ID) string {
+	return v.handle(scPeerError{peerID: peer, reason: fmt.Errorf("verif")})
+}
+
+// Finished is scFinishedEv.
+func (v *VerifProcessor) Finished() string { return v.handle(scFinishedEv{reason: "verif"}) }
+
+// Process is rProcessBlock.
+func (v *VerifProcessor) Process() string { return v.handle(rProcessBlock{}) }
+
+// State is the processor context's state; QueueLen the number of queued blocks.
+func (v *VerifProcessor) State() sm.State { return v.ctx.tmState() }
+func (v *VerifProcessor) QueueLen() int   { return len(v.pc.queue) }
+func (v *VerifProcessor) Draining() bool  { return v.pc.draining }
